@@ -53,6 +53,9 @@ def obligations(res):
         "derivative-based forecast is exact for every expression and every history.  The forecaster itself (StateGrammarConverter, prefix-mode "
         "re-parsing, ContinuingNodeVisitor) is NOT modelled: PacketForecaster.predict of the real code is run on every history reached and its answer "
         "compared in Coq with the forecast of the exported grammar",
+        "Slicing: Model/SliceM.v models slice_parties(ignore_receivers=True) on the exported UNSLICED rules; theorems: only kept parties' messages remain, "
+        "only other parties' messages are removed, every sliced interaction is the visible part of a full interaction (given that no sequence member is "
+        "infeasible).  The tie: the real forecaster on the really sliced grammar must agree with the forecast of the model's slice",
         "non-recursive protocol grammars only (recursion through non-message nonterminals makes the model give up: code 5, counted); open-ended repetitions "
         "are unbounded in the model, capped at nodes.MAX_REPETITIONS (20) in the code: histories explored are shorter",
         "completeness is not judged for the empty history (predict() takes a shortcut there and never reports a complete tree); slicing: 30% of the "
